@@ -10,6 +10,7 @@ import os
 from fibertree import Fiber, Payload, Tensor
 
 from . import observe as ob
+from .core import Violation
 from .treesim import Skip, Slot, dec_point, dec_coord, enc_point, IDS
 
 
@@ -408,6 +409,23 @@ def op_ro(self, a, targets):
                            f"the first rendering of slot {a['slot']} ({style}, highlights {hl}) succeeded, the second "
                            f"raised {type(e).__name__}: {str(e)[:60]}")
                 self.probe("rendered")
+                if a.get("hl") and a.get("reset"):
+                    # the caller resets the highlight colours before each picture: same picture each time
+                    from fibertree.graphics.image_utils import ImageUtils
+                    try:
+                        ImageUtils.resetColors()
+                        ia = TensorImage(t, style=style, highlights={w: list(p) for w, p in hl.items()}).im
+                        ImageUtils.resetColors()
+                        ib = TensorImage(t, style=style, highlights={w: list(p) for w, p in hl.items()}).im
+                        if ia.size != ib.size or ia.tobytes() != ib.tobytes():
+                            self.V("C10", "C10.render-twice", "ro_render",
+                                   f"two renderings of slot {a['slot']} ({style}, highlights {hl}), each right after "
+                                   f"ImageUtils.resetColors(), differ")
+                        self.probe("rendered_after_reset_colors")
+                    except Violation:
+                        raise
+                    except Exception:
+                        pass
                 if im2 is not None and (im1.size != im2.size or im1.tobytes() != im2.tobytes()):
                     self.V("C10", "C10.render-twice", "ro_render",
                            f"two consecutive renderings of slot {a['slot']} ({style}, highlights {hl}) differ")
@@ -742,6 +760,7 @@ def gen_render(self, g):
                 n = g.randint(1, sl.depth)
                 pts.append(enc_point(self.rand_path(g, sl, n)))
             a["hl"].append([w, pts])
+        a["reset"] = g.random() < 0.4
     return ["op", "ro", a]
 
 
